@@ -381,7 +381,10 @@ class BaseModel(Generic[MvalT_co], metaclass=ModelsMeta):
 
     def finish(self) -> Self:
         self._check_not_finished()
-        # Enforce access first, since it may introduce a new world.
+        # Enforce access first, since it may introduce a new world. R must
+        # know every world that has a frame before it is enforced.
+        for w in self.frames:
+            self.R[w]
         self.R.enforce()
         self._complete_frames()
         self._finished = True
